@@ -65,7 +65,8 @@ def go_modfile():
 
 def go_build(cmd_name, tags="verif", extra_ldflags=""):
     mod = go_modfile()
-    out = os.path.join(BIN, cmd_name if REPO == "/repo" else cmd_name + "-alt")
+    out = os.path.join(BIN, cmd_name if REPO == "/repo" else
+                       cmd_name + "-alt-" + hashlib.sha1(REPO.encode()).hexdigest()[:8])
     args = ["go", "build", "-tags", tags, "-overlay", os.path.join(HARNESS, "overlay", "overlay.json"),
             "-modfile", mod, "-ldflags=-checklinkname=0 " + extra_ldflags, "-o", out, "./cmd/" + cmd_name]
     p = sh(args, cwd=HARNESS, env=GOENV, timeout=1500, check=False)
